@@ -25,6 +25,8 @@ Family == {
   [k |-> "delay", f |-> Th(<<Eff>>, Bind(Lit(1), [k |-> "delay", f |-> Th(<<Eff>>, Bind(Lit(2), Sig("normal")))]))],
   BindR(Lit(1), BindR(Lit(2), BindR(Lit(3), Sig("normal")))),   \* echo: logs what it received
   BindR(Lit(1), [k |-> "delay", f |-> Th(<<[k |-> "inc"]>>, BindR([k |-> "x"], [k |-> "retval", v |-> [k |-> "x"]]))]),
+  BindR(Lit(1), Bind([k |-> "x"], [k |-> "retval", v |-> Lit(4)])),   \* a receiving yield followed by a plain one (mkNextRecv, then mkNext)
+  Bind(Lit(1), BindR(Lit(2), Bind(Lit(3), Sig("normal")))),           \* plain, receiving, plain
   [k |-> "for", c |-> None, p |-> [id |-> 3], body |-> BindR([k |-> "x"], Sig("normal"))],  \* infinite, x++
   [k |-> "comb", a |-> Bind(Lit(1), Sig("break")), b |-> Bind(Lit(2), Sig("normal"))]       \* break escapes to the top
 }
